@@ -293,7 +293,11 @@ pub fn make_script(rng: &mut Rng, roots: &[History], steps: usize, max_chain: us
                     }
                 }
             }
+            let stop = crate::sess::wants_stop(&line);
             lines.push(line);
+            if stop {
+                lines.push("stop".into());
+            }
             if rng.chance(1, 3) {
                 lines.push("isready".into());
             }
